@@ -249,18 +249,8 @@ BODYSETS = {
         ("new", ENF, fnre("new", True), impl_start("CoreApi", "Enforcer")),
         ("enforce", ENF, fnre("enforce"), impl_start("CoreApi", "Enforcer")),
         ("enforce_with_context", ENF, fnre("enforce_with_context"), impl_start("CoreApi", "Enforcer")),
-        ("set_role_manager", ENF, fnre("set_role_manager")),
-        ("set_model", ENF, fnre("set_model", True)),
-        ("set_adapter", ENF, fnre("set_adapter", True)),
-        ("build_role_links", ENF, fnre("build_role_links"), impl_start("CoreApi", "Enforcer")),
         ("build_incremental_role_links", ENF, fnre("build_incremental_role_links"), impl_start("CoreApi", "Enforcer")),
-        ("load_policy", ENF, fnre("load_policy", True)),
-        ("load_filtered_policy", ENF, fnre("load_filtered_policy", True)),
-        ("save_policy", ENF, fnre("save_policy", True)),
-        ("clear_policy", ENF, fnre("clear_policy", True)),
-        ("enable_auto_notify_watcher", ENF, fnre("enable_auto_notify_watcher")),
         ("emit", ENF, fnre("emit"), impl_start(r"EventEmitter<Event>", "Enforcer")),
-        ("add_function", ENF, fnre("add_function")),
     ],
     "model": [
         ("add_def", DM, fnre("add_def")),
